@@ -132,8 +132,14 @@ def build(env, spec):
     for pi, pw in enumerate(spec["cluster"]):
         ws = []
         for wi, caps in enumerate(pw):
-            cv = {rn: val(env, q, f"cap_{pi}_{wi}_{rn}", 0, 2 ** 20) for rn, q in caps.items()}
-            wk = Worker(name=f"W{pi}_{wi}", resources=Resources({Resource(name=rn): q for rn, q in cv.items()}, _logger=NULL), _logger=NULL)
+            if isinstance(caps, dict):
+                entries = [(rn, val(env, q, f"cap_{pi}_{wi}_{rn}", 0, 2 ** 20)) for rn, q in caps.items()]
+            else:  # list of [name, quantity]: several instances of one resource type, in this order
+                entries = [(rn, val(env, q, f"cap_{pi}_{wi}_{rn}{ei}", 0, 2 ** 20)) for ei, (rn, q) in enumerate(caps)]
+            cv = {}
+            for rn, q in entries:
+                cv[rn] = cv.get(rn, 0) + q
+            wk = Worker(name=f"W{pi}_{wi}", resources=Resources({Resource(name=rn): q for rn, q in entries}, _logger=NULL), _logger=NULL)
             ws.append(wk)
             W.workers.append((pi, wk, cv))
         pools.append(WorkerPool(name=f"P{pi}", workers=ws, _logger=NULL))
@@ -468,7 +474,19 @@ _wrap_all()
 
 def default_budget(spec):
     nt = sum(len(g["tasks"]) for g in spec["graphs"])
-    return spec.get("budget", 40 * (nt + 2))
+    b = 40 * (nt + 2)
+    if spec.get("policy") == "HAVOC" or spec.get("retry_loops"):
+        # 1-microsecond retry loops (TASK_NOT_READY / WORKER_NOT_READY) are bounded by the total amount of
+        # work plus the planned delays; these worlds bound runtimes and delays by small constants
+        hv = spec.get("havoc", {})
+        horizon = 0
+        for g in spec["graphs"]:
+            for t in g["tasks"]:
+                ss = spec.get("tasks", {}).get(t, {}).get("strategies", [{"rt": ["sym", 1, 4]}])
+                horizon += max((s["rt"][2] if isinstance(s.get("rt"), list) else (s.get("rt") if isinstance(s.get("rt"), int) else 4)) for s in ss)
+            horizon += len(g["tasks"]) * hv.get("max_delta", 2) * (1 + hv.get("max_replans", 1))
+        b += 14 * horizon
+    return spec.get("budget", b)
 
 
 def run(env, spec, oracles, after=None):
